@@ -1,6 +1,6 @@
 """C05 - equality and ordering operators form one consistent partial order."""
 import copy
-from lib import driver as D, machine as M
+from lib import driver as D, machine as M, nodetrace as NT
 
 MUTANTS = ["cmpFirstPairOnly", "ignoreOffset", "msIsPrecision", "intDecimalNoPromote"]
 
@@ -38,6 +38,11 @@ def run(ctx):
     ctx.extra["skipped_unrepresentable_forms"] = skipped
     # programs of the whole abstract machine whose last step is one of this property's operations (lib/machine.py)
     verdicts = M.extend(ctx, verdicts, by_id)
+    # node-level trace validation (spec/FPNodeTrace.tla): every node inside the repository's own tests, inside the machine
+    # programs and inside a spread of the cases above is a checked transition; the value laws apply this property's reference
+    # module to the logged values of every node's operands
+    verdicts = NT.extend(ctx, verdicts, by_id, reruns=[
+        (binary, ["run", NT.sample_cases(ctx, ctx.path("cases.ndjson"), 1500 if ctx.tier == "quick" else 12000), ctx.path("obs_traced.ndjson")])])
     return D.finish(ctx, [v for v in verdicts if not v.get("skipped")], by_id, evaluations=len(obs) - skipped,
                     rule="all ordered pairs of the 82-value pool (plus the empty operand) x six operators as literals, plus one rotating "
                          "environment-variable / FHIR-element form combination per pair; collection cases = variants of 12 base "
